@@ -89,7 +89,18 @@ static void compare_models(const std::string& tag, Model& A, Model& B, unsigned 
             const double Sg = (1.0 - Sw) * (k % 3 == 0 ? 0.0 : rng.unit());
             const auto a = A.eval(c, Sw, Sg), b = B.eval(c, Sw, Sg);
             same(tag + ".krw", c, a[0], b[0], 1.0);
-            same(tag + ".kro", c, a[1], b[1], 1.0);
+            {   // (with the two-phase values the three-phase value is built from, for diagnosis)
+                const auto& pa = A.real(c); const auto& pb = B.real(c);
+                const double So = 1.0 - Sw - Sg, swl = arrays.is_null() ? r["swco"].get<double>() : arrays["SWL"][c].get<double>();
+                // vertical three-point scaling on a table whose oil relative permeability at the critical water saturation equals
+                // its maximum (Swcr = Swl in the table): inside [SWL, SWCR) the two input families take different branches of
+                // unscaledToScaledKrn_ (see the known finding) - tagged
+                const bool degenerate = !arrays.is_null() && arrays.contains("KRORW") && r["krw"][1].get<double>() > 0.0
+                                        && Sw < arrays["SWCR"][c].get<double>() && Sw >= arrays["SWL"][c].get<double>();
+                TR->emit({{"e", "Same"}, {"fn", tag + (degenerate ? ".kro@krorw-at-maximum" : ".kro")}, {"cell", c}, {"a", sc(a[1], 1.0)}, {"b", sc(b[1], 1.0)}, {"sw", sc(Sw, 1.0)}, {"sg", sc(Sg, 1.0)},
+                          {"krow", {sc(OWLaw::twoPhaseSatKrn(pa.oilWaterParams(), Sw), 1.0), sc(OWLaw::twoPhaseSatKrn(pb.oilWaterParams(), Sw), 1.0)}},
+                          {"krog", {sc(GOLaw::twoPhaseSatKrw(pa.gasOilParams(), So + Sw - swl), 1.0), sc(GOLaw::twoPhaseSatKrw(pb.gasOilParams(), So + Sw - swl), 1.0)}}});
+            }
             same(tag + ".krg", c, a[2], b[2], 1.0);
             same(tag + ".pcw", c, a[3], b[3], pcw * 1e5);
             same(tag + ".pcg", c, a[4], b[4], pcg * 1e5);
@@ -175,15 +186,37 @@ int main(int argc, char** argv) {
                     const auto& r = regs[satnum[c].get<int>() - 1];
                     const auto& p = P.real(c);
                     auto A = [&](const char* k) { return arrays[k][c].get<double>(); };
-                    const double mw = vmax(r["krw"]), mg = vmax(r["krg"]);
+                    const bool vert = arrays.contains("KRW");
+                    // the maxima: the table's, or with vertical scaling the cell's KRW / KRO / KRG
+                    const double mw = vert ? A("KRW") : vmax(r["krw"]), mg = vert ? A("KRG") : vmax(r["krg"]), mo = vert ? A("KRO") : 1.0;
                     endpoint("krw(SWCR)", c, 0.0, OWLaw::twoPhaseSatKrw(p.oilWaterParams(), A("SWCR")), mw);
                     endpoint("krw(SWU)", c, mw, OWLaw::twoPhaseSatKrw(p.oilWaterParams(), A("SWU")), mw);
                     endpoint("krow(1-SOWCR-SGL)", c, 0.0, OWLaw::twoPhaseSatKrn(p.oilWaterParams(), 1.0 - A("SOWCR") - A("SGL")), 1.0);
-                    endpoint("krow(SWL)", c, 1.0, OWLaw::twoPhaseSatKrn(p.oilWaterParams(), A("SWL")), 1.0);
+                    endpoint("krow(SWL)", c, mo, OWLaw::twoPhaseSatKrn(p.oilWaterParams(), A("SWL")), 1.0);
                     endpoint("krg(SGCR)", c, 0.0, GOLaw::twoPhaseSatKrn(p.gasOilParams(), 1.0 - A("SWL") - A("SGCR")), mg);
                     endpoint("krg(SGU)", c, mg, GOLaw::twoPhaseSatKrn(p.gasOilParams(), 1.0 - A("SWL") - A("SGU")), mg);
                     endpoint("krog(SOGCR)", c, 0.0, GOLaw::twoPhaseSatKrw(p.gasOilParams(), A("SOGCR")), 1.0);
-                    endpoint("krog(1-SWL-SGL)", c, 1.0, GOLaw::twoPhaseSatKrw(p.gasOilParams(), 1.0 - A("SWL") - A("SGL")), 1.0);
+                    endpoint("krog(1-SWL-SGL)", c, mo, GOLaw::twoPhaseSatKrw(p.gasOilParams(), 1.0 - A("SWL") - A("SGL")), 1.0);
+                    if (vert) {
+                        // the value at the critical saturation of the displacing phase (three-point scaling)
+                        endpoint("krw(1-SOWCR-SGL)=KRWR", c, A("KRWR"), OWLaw::twoPhaseSatKrw(p.oilWaterParams(), 1.0 - A("SOWCR") - A("SGL")), mw);
+                        endpoint("krow(SWCR)=KRORW", c, A("KRORW"), OWLaw::twoPhaseSatKrn(p.oilWaterParams(), A("SWCR")), 1.0);
+                        endpoint("krg(1-SOGCR-SWL)=KRGR", c, A("KRGR"), GOLaw::twoPhaseSatKrn(p.gasOilParams(), A("SOGCR")), mg);
+                        // the scaled curves stay monotone
+                        double worstW = 0, worstO = 0, worstG = 0, pw = -1, po = 2, pg = 2;
+                        for (int k = 0; k <= 200; ++k) {
+                            const double S = A("SWL") + (1.0 - A("SWL")) * k / 200.0;
+                            const double kw = OWLaw::twoPhaseSatKrw(p.oilWaterParams(), S), ko = OWLaw::twoPhaseSatKrn(p.oilWaterParams(), S);
+                            worstW = std::max(worstW, pw - kw); worstO = std::max(worstO, ko - po);
+                            pw = kw; po = ko;
+                            const double So = (1.0 - A("SWL")) * k / 200.0;                 // krg falls as the oil saturation rises
+                            const double kg = GOLaw::twoPhaseSatKrn(p.gasOilParams(), So);
+                            worstG = std::max(worstG, kg - pg); pg = kg;
+                        }
+                        TR->emit({{"e", "Mono"}, {"fn", "krw"}, {"cell", c}, {"worst", sc(worstW, 1.0)}});
+                        TR->emit({{"e", "Mono"}, {"fn", "krow"}, {"cell", c}, {"worst", sc(worstO, 1.0)}});
+                        TR->emit({{"e", "Mono"}, {"fn", "krg"}, {"cell", c}, {"worst", sc(worstG, 1.0)}});
+                    }
                 }
             }
             // ---- 5. hysteresis
